@@ -65,6 +65,15 @@ def loopy_limitation(stage: str, exc: BaseException | None, detail: str,
     msg = (str(exc) if exc is not None else "") + detail
     if "remainder and floordiv for floating-point types" in msg:
         return "loopy-C:float-floordiv-mod"
+    if stage == "loopy-schedule" and isinstance(exc, NotImplementedError):
+        # loopy's optional access-range checker (on because the kernel holds a hand-written
+        # loopy call) cannot turn a nested conditional into an isl set: NotImplementedError
+        # raised inside loopy/check.py -> isl_set_from_expr
+        import traceback
+        files = [fr.filename for fr in traceback.extract_tb(exc.__traceback__)]
+        names = [fr.name for fr in traceback.extract_tb(exc.__traceback__)]
+        if any(f.endswith("loopy/check.py") for f in files) and "isl_set_from_expr" in names:
+            return "loopy:check_bounds-cannot-handle-conditional-in-condition"
     if "static inline static int isnani" in msg:
         # loopy's preamble for isnan on an integer operand is not valid C
         return "loopy-C:isnan-int-preamble-duplicate-static"
